@@ -7,6 +7,7 @@
 package publisher
 
 import (
+	"sync"
 	"sync/atomic"
 	"time"
 
@@ -31,6 +32,13 @@ type Subscriber[T any] struct {
 	publisher    *Publication[T]
 	timeout      time.Duration
 	onTimeout    func(T)
+
+	// mu is held for reading by a delivery while it waits to send and for writing
+	// while receiveCh is closed, so a send never meets a closed channel.
+	mu     sync.RWMutex
+	closed bool
+	// done is closed first when the subscriber is closed; it wakes pending deliveries.
+	done chan struct{}
 }
 
 type SubscriberOption[T any] func(sub *Subscriber[T])
@@ -55,6 +63,7 @@ func (p *Publication[T]) Subscribe(buffer int, opts ...SubscriberOption[T]) *Sub
 		receiveCh:    make(chan T, buffer),
 		publisher:    p,
 		timeout:      defaultTimeout,
+		done:         make(chan struct{}),
 	}
 
 	for _, opt := range opts {
@@ -73,13 +82,8 @@ func (p *Publication[T]) Publish(message T) {
 	for _, sub := range p.subscribers.Iterate() {
 		if sub.filter == nil || sub.filter(message) {
 			go func() {
-				select {
-				case sub.receiveCh <- message:
-					// continue
-				case <-time.After(sub.timeout):
-					if sub.onTimeout != nil {
-						sub.onTimeout(message)
-					}
+				if sub.send(message) && sub.onTimeout != nil {
+					sub.onTimeout(message)
 				}
 			}()
 		} else if sub.onFiltered != nil {
@@ -91,7 +95,7 @@ func (p *Publication[T]) Publish(message T) {
 // Close closes the publication and all subscriber channels.
 func (p *Publication[T]) Close() {
 	for _, listener := range p.subscribers.Iterate() {
-		close(listener.receiveCh)
+		listener.shutdown()
 	}
 	p.subscribers.Clear()
 }
@@ -99,9 +103,37 @@ func (p *Publication[T]) Close() {
 // unsubscribe removes a subscriber from the publication.
 func (p *Publication[T]) unsubscribe(subscriberID uint64) {
 	if s, ok := p.subscribers.Load(subscriberID); ok {
-		close(s.receiveCh)
+		s.shutdown()
 		p.subscribers.Delete(subscriberID)
 	}
+}
+
+// send delivers message to the subscriber's channel. It reports whether the
+// delivery was given up because the subscriber's timeout expired; a delivery
+// that is pending when the subscriber is closed is dropped.
+func (s *Subscriber[T]) send(message T) (timedOut bool) {
+	s.mu.RLock()
+	defer s.mu.RUnlock()
+	if s.closed {
+		return false
+	}
+	select {
+	case s.receiveCh <- message:
+	case <-s.done:
+	case <-time.After(s.timeout):
+		return true
+	}
+	return false
+}
+
+// shutdown wakes the pending deliveries, waits until they have left and closes
+// the receive channel. Messages already buffered remain readable.
+func (s *Subscriber[T]) shutdown() {
+	close(s.done)
+	s.mu.Lock()
+	s.closed = true
+	close(s.receiveCh)
+	s.mu.Unlock()
 }
 
 // Close closes the subscriber's receive channel and unsubscribes them from the publication.
